@@ -70,7 +70,7 @@ func (c *Collection) Condense(treatErrorAsTerminal bool) (Provider, error) {
 		// directly.
 		characterized := Sequence(name, ia...)
 		downIn, _ = characterized.DownFlows()
-		_, upOut = characterized.UpFlows()
+		upOut = characterized.netReturns()
 		c = Sequence(name, c)
 	}
 
